@@ -38,8 +38,9 @@ EXPLANATION = ("quick: ALL sets of 1..2 reactions over the 90 reactions between 
                "textbook networks with known deficiency (A+B<->C: 0, Edelstein: 1, futile cycles: 1 and 2, Horn-Jackson: 2, ...), bridged-cycle networks (>= 5 reactions, "
                "one-way / two-way bridges), networks with 10-13 species and 10-12 reactions (multi-digit names / ids), chains with 24 and 100 species (thorough: up to 128), "
                "call histories on ONE analyzer object with the hypergraph edited between the analyses (every answer compared with a fresh analyzer), scripts of arbitrary "
-               "public calls on one analyzer with edits in between (result / error code and every stored field after every call), raw attributed bipartite graphs "
-               "(missing / odd kind, bipartite flag, label, role, stoich; reversed arcs; undirected, multigraph and directed-multigraph inputs), disjoint multi-class networks, "
+               "public calls on one analyzer with edits in between (result / error code and every stored field after every call; ALL sequences of 3 calls over 6 call kinds with an edit, "
+               "ALL pairs over the 10 call kinds), raw attributed bipartite graphs (ALL kind x bipartite-flag combinations on a species and on a reaction node; "
+               "missing / odd kind, bipartite flag, label, role, stoich; reversed arcs; undirected, multigraph and directed-multigraph inputs), disjoint multi-class networks, "
                "ill-conditioned stoichiometry (multi-digit coefficients, near-singular and exactly singular blocks), and the regression corpus.  "
                "Theorems (all inputs, closed under the global context): complexes = the distinct reactant/product vectors (NoDup, complete, vectors equal iff "
                "multisets equal), complex-graph arcs, linkage classes = connected components (partition, same class iff undirected path; fuel suffices), weak "
@@ -81,7 +82,7 @@ LEVEL_TEXT = ("Machine-checked proof (Coq) about executable models of Deficiency
               "builder and the undirected-input conversion are proved to refine the label-level model. The models are compared with the Python code "
               "(complex list, arcs, classes, all integers and flags, class deficiencies, result / error code and every stored field after every call, raw attributed "
               "graphs) on every run over an exhaustive small scope, random, textbook, large and adversarial networks; numpy's float ranks are compared with the certified exact ranks per input.")
-LEVEL_NOTE = ("Universal: all 43 model theorems and checker soundness. Per input: float ranks vs certified ranks; networkx component routines vs "
+LEVEL_NOTE = ("Universal: all 49 model theorems and checker soundness. Per input: float ranks vs certified ranks; networkx component routines vs "
               "the model's closures; float part of nondegeneracy_test (oracle inputs). Trusted: Coq kernel, MathComp, models + encoders. "
               "networkx/numpy results are compared, not trusted.")
 TECHNIQUE = ("Coq proof about Gallina models (stdlib lists: walk invariant, lib/Reach saturation, API state-machine invariant, identifier-level refinement; MathComp: rank of Y*Ia, kernel of the incidence "
@@ -315,6 +316,17 @@ def _analyze_api(case, Xv):
         a.deficiency_one_structural["regular"] = "y"
         a.summary.n_complexes = 99
         return a.compute_crn_deficiency()
+    if v == "multidi":                       # a DIRECTED multigraph with the multiplicities written as parallel arcs (one arc per molecule)
+        import networkx as nx
+        M = nx.MultiDiGraph()
+        M.add_nodes_from(Xv.nodes(data=True))
+        for u, w, d in Xv.edges(data=True):
+            for j in range(int(d.get("stoich", 1))):
+                dd = dict(d, stoich=1)
+                if j % 2:
+                    dd.pop("stoich")         # the default coefficient
+                M.add_edge(u, w, **dd)
+        return DeficiencyAnalyzer(M).compute_crn_deficiency(run_nondegeneracy=True)
     if v in ("und", "multi"):
         U = _undirected_view(Xv, v == "multi")
         if U is None:
@@ -746,6 +758,28 @@ def _oracle_raw(case):
     if len({tuple(c) for c in o[2]}) != n:
         fails.append(dict(clause="raw-complexes", detail="duplicate complex in %r" % (o[2],)))
     from .C17 import has_catalyst
+    if case["mut"] == ["none"] and all(p[1] in ("reactant", "product") for p in case.get("par", [])) \
+            and not (case.get("und") == "graph" and has_catalyst(case)):
+        # a fully attributed graph IS a reaction network whatever its networkx class: the complexes are the reactant / product
+        # multisets read off its incidences (parallel incidences of a multigraph = one arc per molecule or per batch: they add up)
+        Gi = API.raw_input(case)
+        sp = sorted((str(d["label"]), n) for n, d in Gi.nodes(data=True) if d.get("kind") == "species")
+        pos = {n: k for k, (_, n) in enumerate(sp)}
+        want = set()
+        for r, d in Gi.nodes(data=True):
+            if d.get("kind") != "reaction":
+                continue
+            lhs, rhs = [0] * len(sp), [0] * len(sp)
+            for u, v, ed in Gi.edges(data=True):
+                if r not in (u, v):
+                    continue
+                x = v if u == r else u
+                if x in pos:
+                    (lhs if ed["role"] == "reactant" else rhs)[pos[x]] += int(ed.get("stoich", 1))
+            want |= {tuple(lhs), tuple(rhs)}
+        if {tuple(c) for c in o[2]} != want or o[1] != [l for l, _ in sp]:
+            fails.append(dict(clause="raw-complexes-multiset", detail="complexes %r over %r, the incidences of the %s give %r"
+                              % (o[2], o[1], type(Gi).__name__, sorted(want))))
     if case["mut"] == ["none"] and not case.get("par") and not (case.get("und") == "graph" and has_catalyst(case)):
         ref = impl(dict(kind="raw-ref", rxns=case["rxns"], iso=case.get("iso", []), view="hyper"))
         if _plain(ref[1:4]) != _plain(o[2:5]):
@@ -1031,7 +1065,9 @@ def gen_cases(tier, rng):
     cases += ADV.api_surface(rng)
     cases += API.fixed() + API.random_scripts(rng, 120 if tier == "quick" else 1500)
     cases += API.raw_cases(rng, 60 if tier == "quick" else 1500)
+    cases += API.exhaustive_scripts() + API.exhaustive_attributes()
     cases += ADV.large(rng, sizes=(24, 100) if tier == "quick" else (24, 40, 64, 100, 128))
+    cases.append(API.hundred_classes(100))
     cases += ADV.multi_class(rng, count=24 if tier == "quick" else 240)
     cases += ADV.ill_conditioned(rng, count=24 if tier == "quick" else 240)
     cases.append(dict(kind="degenerate", rxns=[], iso=[], view="hyper"))
